@@ -268,7 +268,7 @@ def run_config(frontend, prefix, principal, flagseq, storage="tree"):
                     rec["cal_ok"] = len(w["calendars"]) > 0
                     rec["ab_ok"] = len(w["addressbooks"]) > 0
                     rec["trail"] = repr(w["trail"])[:600]
-                    if prev_listing is not None and flags != "defaults" and storage == "tree":
+                    if prev_listing is not None and flags != "defaults" and storage in ("tree", "moved"):
                         # (a start with --defaults may add the default collections; a calendar that
                         #  was converted to a bare repository in between is judged by its contents)
                         rec["listing_same"] = home_listing(srv.port, w) == prev_listing
@@ -323,6 +323,19 @@ def run_config(frontend, prefix, principal, flagseq, storage="tree"):
                 if os.path.isdir(os.path.join(cal_dir, ".git")):
                     to_bare(cal_dir)
                     user["converted"] = True
+            if storage == "moved" and user and not user.get("moved"):
+                # between two lifetimes: the calendar holding the user's data moves to another
+                # volume and is linked back under its old name
+                rel = urllib.parse.unquote(urllib.parse.urlsplit(user["event"]).path)
+                rel = rel[len(prefix.rstrip("/")):] if prefix.rstrip("/") and rel.startswith(prefix.rstrip("/")) else rel
+                cal_dir = os.path.join(directory, os.path.dirname(rel).lstrip("/"))
+                if os.path.isdir(cal_dir) and not os.path.islink(cal_dir):
+                    elsewhere = os.path.join(base, "volume2")
+                    os.makedirs(elsewhere, exist_ok=True)
+                    dest = os.path.join(elsewhere, os.path.basename(cal_dir))
+                    shutil.move(cal_dir, dest)
+                    os.symlink(dest, cal_dir)
+                    user["moved"] = True
             if not srv.up:
                 rec["trail"] = getattr(srv, "stderr", "")[-300:]
             starts.append(rec)
